@@ -343,6 +343,8 @@ int main(int argc, char** argv) {
           SU_vector v1(d, buf), v2(d, buf); v1 = iCommutator(v2, b); expect_same("view=iCommutator(view,b)", v1, r, 0);
           for (int k = 0; k < d * d; k++) buf[k] = b[k];
           SU_vector w1(d, buf), w2(d, buf); w1 = iCommutator(a, w2); expect_same("view=iCommutator(a,view)", w1, r, 0);
+          SU_vector own1 = a; SU_vector vw1(d, &own1[0]); own1 = iCommutator(vw1, b); expect_same("owner=iCommutator(viewOfOwner,b)", own1, r, 0);
+          SU_vector own2 = b; SU_vector vw2(d, &own2[0]); vw2 = iCommutator(a, own2); expect_same("viewOfOwner=iCommutator(a,owner)", own2, r, 0);
         }
       } else if (op == "acom") {
         SU_vector r = ACommutator(a, b);
@@ -360,7 +362,9 @@ int main(int argc, char** argv) {
         { SU_vector x = a; x = ACommutator(x, b); expect_same("a=ACommutator(a,b)", x, r, 0);
           SU_vector y = b; y = ACommutator(a, y); expect_same("b=ACommutator(a,b)", y, r, 0);
           alignas(32) double buf[40]; for (int k = 0; k < d * d; k++) buf[k] = a[k];
-          SU_vector v1(d, buf), v2(d, buf); v1 = ACommutator(v2, b); expect_same("view=ACommutator(view,b)", v1, r, 0); }
+          SU_vector v1(d, buf), v2(d, buf); v1 = ACommutator(v2, b); expect_same("view=ACommutator(view,b)", v1, r, 0);
+          SU_vector own1 = a; SU_vector vw1(d, &own1[0]); own1 = ACommutator(vw1, b); expect_same("owner=ACommutator(viewOfOwner,b)", own1, r, 0);
+          SU_vector own2 = b; SU_vector vw2(d, &own2[0]); vw2 = ACommutator(a, own2); expect_same("viewOfOwner=ACommutator(a,owner)", own2, r, 0); }
       } else if (op == "trace") {
         double t1 = a * b, t2 = SUTrace(a, b);
         double S = SA * SB * d, tol = TOLF * EPS * (S > 0 ? S : 1);
@@ -386,10 +390,17 @@ int main(int argc, char** argv) {
         { SU_vector x = a; x = x.Evolve(H, t); expect_same("a=a.Evolve(H,t)", x, r, 0);
           alignas(32) double buf[40]; for (int k = 0; k < d * d; k++) buf[k] = a[k];
           SU_vector v1(d, buf), v2(d, buf); v1 = v2.Evolve(H, t); expect_same("view=view.Evolve(H,t)", v1, r, 0); }
+        { // a vector that owns its storage and a second vector viewing that very storage (SU_vector(d, &owner[0])): either may be the target
+          SU_vector own1 = a; SU_vector vw1(d, &own1[0]); own1 = vw1.Evolve(H, t); expect_same("owner=viewOfOwner.Evolve(H,t)", own1, r, 0);
+          SU_vector own2 = a; SU_vector vw2(d, &own2[0]); vw2 = own2.Evolve(H, t); expect_same("viewOfOwner=owner.Evolve(H,t)", own2, r, 0);
+          SU_vector own3 = H; SU_vector vw3(d, &own3[0]); own3 = a.Evolve(vw3, t); expect_same("ownerOfH=a.Evolve(viewOfH,t)", own3, r, 0); }
         std::vector<double> buf(H.GetEvolveBufferSize());
         H.PrepareEvolve(buf.data(), t);
         SU_vector r3 = a.Evolve(buf.data());
         expect_vec("Evolve(buffer)", r3, R, S);
+        { SU_vector own1 = a; SU_vector vw1(d, &own1[0]); own1 = vw1.Evolve(buf.data()); expect_same("owner=viewOfOwner.Evolve(buffer)", own1, r3, 0);
+          SU_vector own2 = a; SU_vector vw2(d, &own2[0]); vw2 = own2.Evolve(buf.data()); expect_same("viewOfOwner=owner.Evolve(buffer)", own2, r3, 0);
+          SU_vector own4 = a; SU_vector vw4(d, &own4[0]); vw4 += own4.Evolve(buf.data()); SU_vector e4 = a + r3; expect_same("viewOfOwner+=owner.Evolve(buffer)", own4, e4, 0); }
         expect_same("fast-vs-direct", r3, r, 8 * EPS * (SA > 0 ? SA : 1));
         { // relational clauses on times OFF the pi/4 lattice (no oracle needed): group law, t=0 identity, scalar products
           double t1 = 0.37 + 0.011 * p[1], t2 = -1.23 + 0.007 * p[0];
